@@ -4,6 +4,8 @@
 package bitcoin_reader
 
 import (
+	"context"
+	"net"
 	"time"
 )
 
@@ -11,4 +13,16 @@ import (
 // can decide which outstanding requests count as expired without sleeping.
 func (m *TxManager) VerifSetRequestTimeout(d time.Duration) {
 	m.requestTimeout.Store(d)
+}
+
+// VerifRun runs the node over a caller-supplied connection (a pipe to a scripted peer) instead
+// of dialing its address.
+func (n *BitcoinNode) VerifRun(ctx context.Context, connection net.Conn,
+	interrupt <-chan interface{}) error {
+
+	if err := n.mockConnect(ctx, connection); err != nil {
+		return err
+	}
+
+	return n.run(ctx, interrupt)
 }
